@@ -49,18 +49,21 @@ def gen_names(rng: random.Random, n: int, common: bool = False) -> list[str]:
     return out
 
 
-def gen_chain_graph(rng: random.Random, n: int) -> dict[str, Any]:
+def gen_chain_graph(rng: random.Random, n: int, shortcuts: bool = True) -> dict[str, Any]:
     """A long directed chain K0 -> K1 -> ... -> K(n-1) -> X -> Y with a few extra edges (a time-unrolled model):
-    recursion depth, not width, is what such a graph stresses."""
+    recursion depth, not width, is what such a graph stresses.  With shortcuts=False the only extra is X <-> Y:
+    a shortcut from the middle of the chain to Y makes y0's ID split the chain into one sub-problem per node
+    (line 4), which is quadratic -- slow, not wrong, and not something to put a liveness budget on."""
     names = [f"K{i}" for i in range(n)] + ["X", "Y", "Zz"]
     D = [[names[i], names[i + 1]] for i in range(n + 1)]
     B: list[list[str]] = []
     if rng.random() < 0.5:
         B.append(["X", "Y"])
-    if rng.random() < 0.5:
-        B.append([f"K{rng.randrange(n)}", "Y"])
-    if rng.random() < 0.3:
-        D.append([f"K{rng.randrange(n // 2)}", "Y"])
+    if shortcuts:
+        if rng.random() < 0.5:
+            B.append([f"K{rng.randrange(n)}", "Y"])
+        if rng.random() < 0.3:
+            D.append([f"K{rng.randrange(n // 2)}", "Y"])
     return {"nodes": names, "D": D, "B": B, "acyclic": True, "order": list(names[:-1]) + ["Zz"], "deep": True}
 
 
